@@ -7,6 +7,7 @@ import (
 	"net/http"
 	"strings"
 	"testing"
+	"time"
 
 	"pgregory.net/rapid"
 )
@@ -30,7 +31,7 @@ func vfC10GenPool(rt *rapid.T, timeoutPct int, neverOpeningBreakerPct int) vfC10
 }
 
 func vfC10Classes(vf *vfCollector, ps vfC10PoolSpec, plan vfC10Req, res vfC10Result) {
-	vf.Class(fmt.Sprintf("attempts=%d", len(res.Attempts)), fmt.Sprintf("maxAttempts=%d", ps.Retry.MaxAttempts),
+	vf.Class(fmt.Sprintf("attempts=%d", len(res.Attempts)), fmt.Sprintf("maxAttempts=%d", ps.Retry.max()),
 		"backOff="+ps.Retry.BackOff, fmt.Sprintf("factor=%v", ps.Retry.Factor), fmt.Sprintf("result=%q/%d", res.Result, res.Status))
 	if plan.Stream {
 		vf.Class("body=stream")
@@ -39,6 +40,9 @@ func vfC10Classes(vf *vfCollector, ps vfC10PoolSpec, plan vfC10Req, res vfC10Res
 	}
 	if ps.TimeoutMs > 0 {
 		vf.Class("pool-timeout")
+	}
+	if ps.Retry.Disabled {
+		vf.Class("no-retry-policy")
 	}
 	if ps.Breaker != nil {
 		vf.Class("inside-breaker")
@@ -53,7 +57,7 @@ func vfC10Classes(vf *vfCollector, ps vfC10PoolSpec, plan vfC10Req, res vfC10Res
 			} else {
 				vf.Class("success-first-attempt")
 			}
-		} else if n == ps.Retry.MaxAttempts && !plan.Stream {
+		} else if n == ps.Retry.max() && !plan.Stream {
 			vf.Class("attempts-exhausted")
 		}
 	}
@@ -73,6 +77,9 @@ func TestVerifC10Retry(t *testing.T) {
 	defer vfC10Install()()
 	rapid.Check(t, func(rt *rapid.T) {
 		ps := vfC10GenPool(rt, 45, 25)
+		if rapid.IntRange(0, 7).Draw(rt, "noRetryPolicy") == 0 {
+			ps.Retry.Disabled = true // the time-limit clause on its own
+		}
 		plan := vfC10Req{Cancel: vfC10Cancel{Mode: "none"}}
 		plan.Stream = rapid.IntRange(0, 3).Draw(rt, "stream") == 0
 		plan.Script = vfC10GenScript(rt, ps, func(int) bool { return ps.TimeoutMs > 0 })
@@ -94,7 +101,7 @@ func TestVerifC10Retry(t *testing.T) {
 		if sawTimeout {
 			vf.Class("blocking-backend-under-timeout")
 		}
-		streamRetryDue := plan.Stream && ps.Retry.MaxAttempts > 1 && !ps.success(plan.outcome(0))
+		streamRetryDue := plan.Stream && ps.Retry.max() > 1 && !ps.success(plan.outcome(0))
 		if streamRetryDue {
 			vf.Class("stream-with-failed-first-attempt")
 		}
@@ -120,6 +127,17 @@ func TestVerifC10Cancel(t *testing.T) {
 		ps := vfC10GenPool(rt, 30, 20)
 		if ps.Retry.MaxAttempts == 1 && rapid.IntRange(0, 3).Draw(rt, "bumpMax") > 0 {
 			ps.Retry.MaxAttempts = rapid.IntRange(2, 5).Draw(rt, "maxAttempts2")
+		}
+		// sub-microsecond waitDuration: the back-off timer has expired by the time the retry loop
+		// selects on it (known finding vfC10KeyCancelRace: generated unless that finding is listed)
+		if rapid.IntRange(0, 9).Draw(rt, "tinyWait") == 0 {
+			tiny := time.Duration(rapid.SampledFrom([]int{1, 20, 100}).Draw(rt, "tinyWaitNs"))
+			if vf.HasKnown(vfC10KeyCancelRace) {
+				vf.Exclude()
+			} else {
+				ps.Retry.Wait = tiny
+				vf.Class("tiny-wait")
+			}
 		}
 		plan := vfC10Req{}
 		plan.Stream = rapid.IntRange(0, 7).Draw(rt, "stream") == 0
@@ -182,7 +200,35 @@ func TestVerifC10Cancel(t *testing.T) {
 			return map[string]interface{}{"pool": ps.String(), "request": plan.String(), "observed": strings.Split(strings.TrimSpace(res.ledger(true)), "\n")}
 		})
 		vfC10Judge(vf, ps, plan, res, func(key, format string, args ...interface{}) bool {
-			vf.Violation(rt, key, "pool: %s\nrequest: %s\n%s\nobserved:\n%s", ps, plan, fmt.Sprintf(format, args...), res.ledger(true))
+			extra := ""
+			if key == vfC10KeyAfterCancel {
+				// The retry loop picks at random between "back-off elapsed" and "cancelled" when both
+				// are ready, and does not look at the context again (vfC10KeyCancelRace). With a wait of
+				// milliseconds that needs a scheduling stall between arming the timer and selecting on
+				// it; an implementation that ignores the cancellation does it every time. Tell the two
+				// apart by repeating the very same request three times.
+				if ps.Retry.Wait < vfC10TinyWait {
+					key = vfC10KeyCancelRace
+				} else {
+					again := 0
+					for k := 0; k < 3; k++ {
+						env2 := vfC10NewEnv(rt, ps)
+						res2 := env2.do(plan)
+						env2.close()
+						if res2.Hung {
+							vfC10Inconclusive(rt, "Proxy.Handle (confirmation run)", ps, plan, res2)
+						}
+						if vfC10AttemptAfterCancel(ps.Retry, res2) >= 0 {
+							again++
+						}
+					}
+					extra = fmt.Sprintf("\nconfirmation: %d of 3 repetitions of the same request made a further attempt after the cancellation again", again)
+					if again < 3 {
+						key = vfC10KeyCancelRace
+					}
+				}
+			}
+			vf.Violation(rt, key, "pool: %s\nrequest: %s\n%s%s\nobserved:\n%s", ps, plan, fmt.Sprintf(format, args...), extra, res.ledger(true))
 			return false
 		})
 	})
@@ -201,7 +247,7 @@ func TestVerifC10Breaker(t *testing.T) {
 		ps := vfC10PoolSpec{FailureCodes: vfC10GenFailureCodes(rt)}
 		ps.Retry = vfC10RetrySpec{
 			MaxAttempts: rapid.IntRange(1, 4).Draw(rt, "maxAttempts"),
-			WaitMs:      rapid.IntRange(1, 2).Draw(rt, "waitMs"),
+			Wait:        time.Duration(rapid.IntRange(1, 2).Draw(rt, "waitMs")) * time.Millisecond,
 			Factor:      rapid.SampledFrom([]float64{0, 0.5, 1}).Draw(rt, "factor"),
 			BackOff:     rapid.SampledFrom([]string{"random", "exponential"}).Draw(rt, "backOff"),
 		}
